@@ -116,6 +116,8 @@ def main(argv):
         _write_evidence(ev_path, pid, tier, seed, t0, None, [], [], {'error': str(e)[:2000]}, 1)
         return 1
     facts = Facts(facts_dir)
+    from .ranges import Ranges
+    Ranges.FNS = facts.fns
     ctx = Ctx(pid, tier, facts, info)
     try:
         ctx.FX = Facts(extract.ensure_fixture_facts())
